@@ -1,6 +1,6 @@
 (* C15 -- The pretty printer keeps statement-level comments; compact output has none
    (writer / printer level clauses).  Property theorems only. *)
-Require Import Base Token Lexer Tree SourceMap Writer Compile Parser Grammar WriterSpec CommentSpec RelexSpec WriterProofs CommentProofs TriviaProofs.
+Require Import Base Token Lexer Tree SourceMap Writer Compile Parser Grammar WriterSpec CommentSpec RelexSpec WriterProofs CommentProofs TriviaProofs RefutedPretty.
 Require Import Gen.Tables Gen.Printer.
 
 (* compact output - code and source map - does not depend on comments at all: it is the
@@ -64,3 +64,13 @@ Theorem C15_comments_stay_in_place : forall src toks p indent m,
             norm_boundaries (boundary_trivia (pr_program r)) = norm_boundaries (boundary_trivia p).
 Proof. exact boundary_trivia_preserved. Qed.
 Print Assumptions C15_comments_stay_in_place.
+
+(* REFUTED CLAUSE (recorded finding KF5 as a theorem; witness evaluated by the kernel): a
+   comment without text is not kept.  Witness  x<LF>// <LF>y  : the source contains a '/',
+   the formatted output of its tree contains none. *)
+Theorem C15_comment_without_text_refuted :
+  exists src toks p,
+    tokenize src = Some toks /\ m_program p toks = true /\ wf_program p = true /\
+    In 47%N src /\ ~ In 47%N (r_code (compile (cfg_pretty [32; 32]%N true false) p)).
+Proof. exact kf5_empty_comment_refuted. Qed.
+Print Assumptions C15_comment_without_text_refuted.
